@@ -1,7 +1,7 @@
 (* C04 — condition-variable wake-ups are neither lost nor swallowed by a timeout.
    Theorems about Model/CvModel.v: the executable model of internal/cv.c (nsync_cv_wait_with_deadline_generic,
    nsync_cv_signal, nsync_cv_broadcast, wake_waiters, cv_enqueue / cv_dequeue / cv_ready_time as used by nsync_wait_n)
-   with the repairs of findings F3 and F15, one step per atomic site, values from Gen/Sites.v; tied to the real code by
+   with the repairs of findings F3, F15 and F16, one step per atomic site, values from Gen/Sites.v; tied to the real code by
    lock-step replay of harness/scen/cv_mix.c traces (replay/cv_replay.ml).  Statements only; proofs in
    Proof/CvProof.v .. CvProof6.v (F15: layers L and F of CvProof6.v).
 
@@ -188,6 +188,16 @@ Section C04.
     (forall t k, rel_pc (pcof w t) = Some k -> mspin w = Some t /\ clr_ok k (muq w)).
   Proof. exact (mu_spin_section_reachable progs clock0 exp sched). Qed.
   (* the lock field of the abstract mutex word counts the holders (bit 0: the writer, bits 8..: the readers; never both) *)
+  (* ---- (g) the repair of F16: what wake_waiters moves to the mutex queue ----
+     at the successful CAS that takes the mutex spinlock ([VCas1]) every record appended to the queue of the mutex was, before
+     the move, a native waiter (NSYNC_WAITER_FLAG_MUCV) ASSOCIATED WITH THE MUTEX (cv_mu != NULL; CvModel has one mutex) -- in
+     particular never a waiter of nsync_cv_wait_with_deadline_generic with the caller's own lock routines (cv_mu == NULL), which
+     would be woken by the unlocker as designated waker and never clear MU_DESIG_WAKER *)
+  Theorem C04_transferred_is_native : forall t c k old, pcof w t = VCas1 k old -> muw w = old ->
+    let w' := fst (step w (Thr t) c) in
+    exists moved, muq w' = muq w ++ moved /\
+      forall r, In r moved -> is_mucv (recs w r) = true /\ cv_mu (recs w r) = true /\ cv_mu (recs w' r) = false /\ lc w' r = PMuq.
+  Proof. exact (transferred_is_native_reachable progs clock0 exp sched). Qed.
   Theorem C04_abstract_mutex_lock_field :
     0 <= muw w < 4294967296 /\ muw w mod 2 = sumf hW (thr w) /\ muw w / 256 = sumf hR (thr w) /\
     (sumf hW (thr w) = 0 \/ sumf hR (thr w) = 0).
@@ -411,6 +421,24 @@ Example C04_example_waiting_bit :
   muw wa = 256 /\ has (muw wa) MU_WAITING = false /\ muq wa = [] /\ mspin wa = None /\
   muw wb = 260 /\ has (muw wb) MU_WAITING = true /\ muq wb = [] /\ mspin wb = None.
 Proof. cbv zeta. split; [eexists; vm_compute; reflexivity|]. vm_compute. repeat split; reflexivity. Qed.
+(* the regression of F16, about the code BEFORE the repair ([run_old]: the model with the old transfer loop, Proof/CvProof5.v):
+   a native writer-mode waiter (record 0) and behind it a waiter of nsync_cv_wait_with_deadline_generic with its own lock
+   routines (record 1: MUCV flag, cv_mu = NULL, l_type = NULL), one broadcast under the write lock.  The old loop puts record 1
+   on the mutex queue; the repaired model leaves it on to_wake_list and wakes it directly. *)
+Theorem C04_old_xfer_moves_generic :
+  let progs := [[OLock W; OWait None false false; OUnlock]; [OLock W; OWait None false true; OUnlock]; [OLock W; OBroadcast; OUnlock]] in
+  let pre := TT 0 12 ++ TT 1 11 ++ TT 2 10 in
+  let w0 := run (init progs 0 None) pre in
+  let wo := run_old w0 (TT 2 1) in
+  let wn := run w0 (TT 2 1) in
+  let wn' := run w0 (TT 2 5) in
+  run_old (init progs 0 None) pre = w0 /\
+  (exists k, pcof w0 2%nat = VCas1 k 1 /\ k_wake k = [0; 1]%nat) /\ muw w0 = 1 /\ muq w0 = [] /\
+  is_mucv (recs w0 1%nat) = true /\ cv_mu (recs w0 1%nat) = false /\ l_type (recs w0 1%nat) = None /\
+  muq wo = [0; 1]%nat /\ lc wo 1%nat = PMuq /\ (exists k, pcof wo 2%nat = VLoad3 k /\ k_wake k = [] /\ k_xfer k = [0; 1]%nat) /\
+  muq wn = [0%nat] /\ lc wn 1%nat = PPriv 2 /\ (exists k, pcof wn 2%nat = VLoad3 k /\ k_wake k = [1%nat] /\ k_xfer k = [0%nat]) /\
+  muq wn' = [0%nat] /\ lc wn' 1%nat = PNone /\ waiting (recs wn' 1%nat) = 0 /\ sem wn' 1%nat = 1 /\ pcof wn' 2%nat = Idle.
+Proof. exact old_xfer_moves_generic_run. Qed.
 (* the state C04_no_lost_wakeup talks about: the sleeper's flag is clear, its semaphore is still 0, the waker is at the V *)
 Example C04_example_between_store_and_V :
   let progs := [[OLock W; OWait None false false; OUnlock]; [OSignal]] in
@@ -429,6 +457,7 @@ Print Assumptions C04_signal_covers. Print Assumptions C04_V_posts. Print Assump
 Print Assumptions C04_waiting_bit_has_a_waiter. Print Assumptions C04_waiting_bit_exact. Print Assumptions C04_release_step.
 Print Assumptions C04_mu_spin_section. Print Assumptions C04_abstract_mutex_lock_field. Print Assumptions C04_release_decided.
 Print Assumptions C04_example_waiting_bit.
+Print Assumptions C04_transferred_is_native. Print Assumptions C04_old_xfer_moves_generic.
 Print Assumptions C04_taken_ghost. Print Assumptions C04_xfer_ghost. Print Assumptions C04_store_ghost. Print Assumptions C04_post_ghost.
 Print Assumptions C04_waker_moves. Print Assumptions C04_VV_moves. Print Assumptions C04_no_stuck.
 Print Assumptions C04_no_stuck_uncoupled_refuted. Print Assumptions C04_no_stuck_uncoupled_is_false.
